@@ -1,7 +1,7 @@
 """C17 - event queue: no event lost, duplicated or reordered; injections delivered once."""
 from pyvc.contracts import ClassDecl, FnContract, Lemma
 from pyvc.engine import lemma_vcs
-from contracts import http_native
+from contracts import http_native, c17b_contracts
 
 PID = "C17"
 RREL = "hippolyzer/lib/proxy/region.py"
@@ -55,6 +55,7 @@ def register(reg):
     reg.add_fn(FnContract(key=f"{RMOD}:EventQueueManager.clear", qualname="EventQueueManager.clear",
                           ensures=["len(self._queued_events) == 0", "is_none(self._last_ack)", "is_none(self._last_payload)"],
                           frame=["_queued_events", "_last_ack", "_last_payload"], **common))
+    c17b_contracts.register_p2(reg, PID)
 
 
 BOUNDED = [http_native.bounded_eq]
